@@ -158,22 +158,25 @@ Inductive position :=
 | PThrownTimeout   (* handle() raises while handling a TimeoutError thrown in at its yield *)
 | PSecondGen       (* the second handle() generator of the same client raises before its first yield *)
 | PSecondYield     (* handle() raises after its second yield *)
-| PDisconnect.     (* on_disconnection raises after an ordinary disconnect *)
+| PDisconnect      (* on_disconnection raises after an ordinary disconnect *)
+| PThrownPipelined. (* like PThrownParse, but the malformed frame arrived in the same chunk as the previous (valid) request:
+                      the request receiver finds it already buffered when handle() yields again *)
 
 Definition all_positions : list position :=
   [PConnCoro; PConnGenBefore; PConnGenAfter; PHandleBefore; PHandleAfter; PThrownParse; PThrownTimeout;
-   PSecondGen; PSecondYield; PDisconnect].
+   PSecondGen; PSecondYield; PDisconnect; PThrownPipelined].
 
 Definition pos_code (p : position) : Z :=
   match p with
   | PConnCoro => 0 | PConnGenBefore => 1 | PConnGenAfter => 2 | PHandleBefore => 3 | PHandleAfter => 4
   | PThrownParse => 5 | PThrownTimeout => 6 | PSecondGen => 7 | PSecondYield => 8 | PDisconnect => 9
+  | PThrownPipelined => 10
   end.
 Definition pos_of_code (z : Z) : option position :=
   match z with
   | 0 => Some PConnCoro | 1 => Some PConnGenBefore | 2 => Some PConnGenAfter | 3 => Some PHandleBefore
   | 4 => Some PHandleAfter | 5 => Some PThrownParse | 6 => Some PThrownTimeout | 7 => Some PSecondGen
-  | 8 => Some PSecondYield | 9 => Some PDisconnect | _ => None
+  | 8 => Some PSecondYield | 9 => Some PDisconnect | 10 => Some PThrownPipelined | _ => None
   end.
 
 (* has on_connection completed when the fault happens? *)
@@ -193,6 +196,7 @@ Definition pos_hooks (p : position) : list Z :=
   | PSecondGen => [1; 2; 3; 2]
   | PSecondYield => [1; 2; 3; 3]
   | PDisconnect => [1; 2; 3; 2]
+  | PThrownPipelined => [1; 2; 3; 5]
   end.
 
 Record outcome := {
@@ -212,7 +216,7 @@ Definition is_item (a b : stack_item) : bool :=
 
 (* ---------- TCP: an established connection, fault e1 at position p, optional second fault e2 raised by
    on_disconnection (for PDisconnect e1 IS the on_disconnection fault) ---------- *)
-Definition tcp_client_task (tls : bool) (p : position) (e1 : exc) (e2 : option exc) : outcome :=
+Definition tcp_client_task_main (tls : bool) (p : position) (e1 : exc) (e2 : option exc) : outcome :=
   let connected := pos_connected p in
   let raised0 := match p with PDisconnect => None | _ => Some e1 end in
   let disc_exc := match p with PDisconnect => Some e1 | _ => e2 end in
@@ -241,6 +245,20 @@ Definition tcp_client_task (tls : bool) (p : position) (e1 : exc) (e2 : option e
      o_hooks := pos_hooks p ++ (if run_disc then [4] else []);
      o_logs := logs1 ++ logs2;
      o_disc_called := run_disc |}.
+
+(* lowlevel/api_async/servers/stream.py _RequestReceiver.next / _BufferedRequestReceiver.next: every consumer.next() call
+   sits inside `try: ... except BaseException as exc: return ThrowAction(exc)`, so a parse error of a frame that is already
+   buffered is THROWN INTO handle() like any other ([receiver_next_protected], regenerated).  Otherwise it leaves
+   request_receiver.next(), __client_coroutine closes the handler generator (on_disconnection runs) and the parse error
+   leaves the client task, outside every filter. *)
+Definition tcp_client_task (tls : bool) (p : position) (e1 : exc) (e2 : option exc) : outcome :=
+  match p with
+  | PThrownPipelined =>
+      if receiver_next_protected then tcp_client_task_main tls p e1 e2
+      else {| o_raises := Some (Naked KParse); o_closed := stream_close_pushed_first; o_hooks := [1; 2; 3; 4];
+              o_logs := []; o_disc_called := true |}
+  | _ => tcp_client_task_main tls p e1 e2
+  end.
 
 (* a fault raised by an exit callback of the initializer's stack (e.g. the TLS close handshake in aclosing()):
    filtered iff the suppressor was pushed before that item *)
